@@ -476,7 +476,10 @@ func runHistory(h []int) ([]cacheOut, []cacheOut, string) {
 
 // ---- (c) public-IP provider scripts ------------------------------------------------------------------
 
-var respKinds = []string{"200-valid", "200-invalid", "4xx", "5xx", "transport-error"}
+// "timeout-once-then-valid": the provider's first exchange runs into the client's per-attempt time limit (an error that
+// answers errors.Is(err, context.DeadlineExceeded), as http.Client.Timeout and dial timeouts do) and the retry, well inside
+// the provider's 2 s budget, gets a valid answer: a retriable failure like any other transport error
+var respKinds = []string{"200-valid", "200-invalid", "4xx", "5xx", "transport-error", "timeout-once-then-valid"}
 
 type PScn struct {
 	Script []int   `json:"script"` // response kind per provider
@@ -514,6 +517,17 @@ func (t *rt) RoundTrip(req *http.Request) (*http.Response, error) {
 		return mk(403, "forbidden"), nil
 	case "5xx":
 		return mk(503, "try later"), nil
+	case "timeout-once-then-valid":
+		n := 0
+		for _, l := range t.log {
+			if l == fmt.Sprint(idx) {
+				n++
+			}
+		}
+		if n <= 1 {
+			return nil, fmt.Errorf("Get %q: %w (Client.Timeout exceeded while awaiting headers)", req.URL.String(), context.DeadlineExceeded)
+		}
+		return mk(200, fmt.Sprintf("192.0.2.%d\n", 10+idx)), nil
 	}
 	return nil, errors.New("connection reset")
 }
@@ -552,7 +566,7 @@ func checkP(sc *PScn, x *vsched.Exec, ip net.IP, err error, log []string, took t
 	}
 	firstValid := -1
 	for i, k := range sc.Script {
-		if respKinds[k] == "200-valid" {
+		if respKinds[k] == "200-valid" || respKinds[k] == "timeout-once-then-valid" {
 			firstValid = i
 			break
 		}
@@ -586,6 +600,10 @@ func checkP(sc *PScn, x *vsched.Exec, ip net.IP, err error, log []string, took t
 	}
 	for i := 0; i <= last; i++ {
 		switch respKinds[sc.Script[i]] {
+		case "timeout-once-then-valid":
+			if per[i] != 2 {
+				return "retry-count", fmt.Sprintf("provider #%d times out once and then answers: asked %d times, want 2", i, per[i])
+			}
 		case "200-valid":
 			if per[i] != 1 {
 				return "valid-provider-asked-not-once", fmt.Sprintf("provider #%d asked %d times", i, per[i])
@@ -834,11 +852,19 @@ func checkBody(i int) (string, string) {
 	return "", ""
 }
 
-func pCount() int { return 5 * 5 * 5 * 5 * 5 * 3 }
+func pCount() int {
+	n := 3
+	for i := 0; i < 5; i++ {
+		n *= len(respKinds)
+	}
+	return n
+}
+
+func pChunks() int { return (pCount() + pChunk - 1) / pChunk }
 
 const pChunk = 125
 
-func count(tier string) int { return len(aItems(tier)) + 1 + pCount()/pChunk + 1 + 1 }
+func count(tier string) int { return len(aItems(tier)) + 1 + pChunks() + 1 + 1 }
 
 func run(tier string, idx int, r *core.ScnResult) {
 	as := aItems(tier)
@@ -933,7 +959,7 @@ func run(tier string, idx int, r *core.ScnResult) {
 	// provider scripts
 	c := idx - 1
 	r.Nontrivial = true
-	if c == pCount()/pChunk+1 {
+	if c == pChunks()+1 {
 		for i := range bodyShapes {
 			r.Evals++
 			r.Stats.Executions++
@@ -944,7 +970,7 @@ func run(tier string, idx int, r *core.ScnResult) {
 		r.Outcome("body-shapes")
 		return
 	}
-	if c == pCount()/pChunk {
+	if c == pChunks() {
 		// fetcher histories
 		hs := fHistories(tier)
 		for _, h := range hs {
@@ -958,12 +984,12 @@ func run(tier string, idx int, r *core.ScnResult) {
 		r.Sample = core.JSON(map[string]any{"fetcher_histories": len(hs), "alphabet": fOps})
 		return
 	}
-	for i := c * pChunk; i < (c+1)*pChunk; i++ {
+	for i := c * pChunk; i < (c+1)*pChunk && i < pCount(); i++ {
 		sc := &PScn{Jitter: []float64{0, 0.5, 0.999}[i%3]}
 		k := i / 3
 		for p := 0; p < 5; p++ {
-			sc.Script = append(sc.Script, k%5)
-			k /= 5
+			sc.Script = append(sc.Script, k%len(respKinds))
+			k /= len(respKinds)
 		}
 		x, ip, err, log, took := runP(sc)
 		r.Evals++
